@@ -77,7 +77,7 @@ type c12WireChannel struct {
 	queue        []*c12WireMessage
 	// onSend, when set, sees what the node sends (and may refuse it)
 	onSend func(message net.TaggedMarshaler) error
-	seqno        uint64
+	seqno  uint64
 
 	queued   int64        // messages put into the handler queue so far
 	consumed atomic.Int64 // Payload() calls so far
@@ -100,6 +100,7 @@ type c12WireHandlerStat struct {
 	delivered atomic.Int64
 	consumed  atomic.Int64
 }
+
 func (c *c12WireChannel) Recv(ctx context.Context, fn func(net.Message)) {
 	c.mu.Lock()
 	c.handlers = append(c.handlers, c12Handler{ctx, fn})
@@ -173,10 +174,17 @@ func (c *c12WireChannel) handOver() {
 
 // settled reports whether every installed handler that is still listening
 // has asked for the payload of everything handed to it.
-func (c *c12WireChannel) settled() bool {
+func (c *c12WireChannel) settled() bool { return c.settledFor(nil, false) }
+
+// settledFor restricts the question to the handlers in the set (only=true) or
+// to the ones outside it (only=false).
+func (c *c12WireChannel) settledFor(set map[int]bool, only bool) bool {
 	c.mu.Lock()
 	defer c.mu.Unlock()
 	for i, h := range c.handlers {
+		if set[i] != only {
+			continue
+		}
 		if h.ctx.Err() == nil && c.stats[i].consumed.Load() < c.stats[i].delivered.Load() {
 			return false
 		}
